@@ -42,6 +42,11 @@ def scenarios(tier, rng):
                                      {"op": "list", "dir": "@B"}, {"op": "list", "dir": "@A"}], "check_unchanged_A": True})
             out.append(base_scenario(f"{kind}-{pname}-{j}-f{freq}m{keep}{'a' if isasync else 's'}-{'_'.join(map(str, calls))}",
                                      kind, pname, pspec, full, freq, keep, isasync, gens))
+    # convergence at an iteration that is a multiple of the frequency (f = 1 makes every iteration one)
+    for kind, pname in combos:
+        pspec, full = P[pname]
+        out.append(base_scenario(f"{kind}-{pname}-f1-to-convergence", kind, pname, pspec, full, 1, 2, rng.random() < 0.5,
+                                 [{"ops": [{"op": "new"}, {"op": "solve", "k": BIG}, {"op": "wait"}, {"op": "list", "dir": "@A"}]}]))
     # the listed finding: restore an OLDER explicit step into the same directory, then one more iteration
     pspec, full = P["forest"]
     for kind in ("VI", "PI"):
